@@ -61,6 +61,9 @@ RoundFails(e) ==
             \cup (IF e.wrote # "ok" THEN {"write-raised"}
                   ELSE IF e.got.k # "ok" THEN {"read-back-failed"}
                   ELSE IF ~SameValue(Dec(e.got.x), x, ExSet(e.ty)) THEN {"read-back-differs"} ELSE {})
+            \* the same file read with from_yaml_all is the list of its one document
+            \cup (IF "gall" \in DOMAIN e /\ e.wrote = "ok" /\ e.got.k = "ok" /\ e.gall # [k |-> "ok", xs |-> <<e.got.x>>]
+                  THEN {"read-all-differs"} ELSE {})
 
 TraceInit == l = 1 /\ bad = {} /\ vals = <<>> /\ IOInit
 TraceNext ==
